@@ -85,3 +85,93 @@ theorem pop_locked (m : MB) (h : m.e.locks.isSome = true) : (step m .pop).ran = 
     | cons x rest => obtain ⟨st, li⟩ := x; rfl
 
 end Resgate.Gw.Mailbox
+
+namespace Resgate.Gw.Mailbox
+
+/-- Number of unlock items (answers of query requests) that arrive during `ops`. -/
+def arrivals : List Op → Nat
+  | [] => 0
+  | .arrive _ _ :: ops => arrivals ops + 1
+  | _ :: ops => arrivals ops
+
+def noLock : List Op → Prop
+  | [] => True
+  | .lock _ :: _ => False
+  | _ :: ops => noLock ops
+
+/-- The lock holds `cap` slots of which `arr.length` have an answer waiting to be processed and
+    `r` are still unanswered. -/
+def Held (m : MB) (r : Nat) : Prop :=
+  ∃ cap arr, m.e.locks = some (cap, arr) ∧ cap = arr.length + r
+
+theorem step_held (m : MB) (op : Op) (r : Nat) (hop : noLock [op]) (hr : arrivals [op] < r)
+    (h : Held m r) : Held (step m op) (r - arrivals [op]) ∧ (step m op).ran = m.ran := by
+  obtain ⟨cap, arr, hl, hc⟩ := h
+  cases op with
+  | enq st it => exact ⟨⟨cap, arr, by simp [step, Entry.push, hl], by simp [arrivals, hc]⟩, rfl⟩
+  | arrive st li =>
+    refine ⟨⟨cap, arr ++ [(st, li)], by simp [step, Entry.pushUnlock, hl], ?_⟩, rfl⟩
+    simp [arrivals] at hr ⊢; omega
+  | lock n => simp [noLock] at hop
+  | pop =>
+    refine ⟨?_, pop_locked m (by simp [hl])⟩
+    cases arr with
+    | nil => exact ⟨cap, [], by simp [step, mbNext, hl], by simp [arrivals, hc]⟩
+    | cons x rest =>
+      obtain ⟨st, li⟩ := x
+      have hne : ¬ (cap - 1 = 0) := by simp at hc; simp [arrivals] at hr; omega
+      refine ⟨cap - 1, rest, ?_, ?_⟩
+      · simp [step, mbNext, hl, hne]
+      · simp at hc; simp [arrivals]; omega
+
+theorem noLock_cons (op : Op) (ops : List Op) : noLock (op :: ops) ↔ noLock [op] ∧ noLock ops := by
+  cases op <;> simp [noLock]
+
+theorem arrivals_cons (op : Op) (ops : List Op) : arrivals (op :: ops) = arrivals [op] + arrivals ops := by
+  cases op <;> simp [arrivals]; omega
+
+/-- While fewer answers have arrived than query requests are unanswered, the lock stays and no
+    normal item is run — for every interleaving of enqueues, arriving answers and worker steps. -/
+theorem run_held (ops : List Op) (m : MB) (r : Nat) (hop : noLock ops) (hr : arrivals ops < r)
+    (h : Held m r) :
+    Held (ops.foldl step m) (r - arrivals ops) ∧ (ops.foldl step m).ran = m.ran := by
+  induction ops generalizing m r with
+  | nil => simpa [arrivals] using h
+  | cons op ops ih =>
+    rw [noLock_cons] at hop
+    rw [arrivals_cons] at hr
+    obtain ⟨h1, e1⟩ := step_held m op r hop.1 (by omega) h
+    obtain ⟨h2, e2⟩ := ih (step m op) (r - arrivals [op]) hop.2 (by omega) h1
+    rw [List.foldl_cons, arrivals_cons]
+    refine ⟨?_, by rw [e2, e1]⟩
+    have : r - (arrivals [op] + arrivals ops) = r - arrivals [op] - arrivals ops := by omega
+    rw [this]; exact h2
+
+theorem held_lockFor (m : MB) (n : Nat) : Held { m with e := m.e.lockFor n } n :=
+  ⟨n, [], by simp [Entry.lockFor], by simp⟩
+
+/-- Once every answer has arrived (`Held m 0`: as many answers wait as slots are left), processing
+    them — one worker step each — ends the lock; no normal item is run and the queue is untouched
+    meanwhile, so the items that waited are resumed in their order by the next steps. -/
+theorem drain_lock (arr : List (Nat × LItem)) (m : MB) (hne : arr ≠ [])
+    (hl : m.e.locks = some (arr.length, arr)) :
+    ((List.replicate arr.length Op.pop).foldl step m).e.locks = none ∧
+    ((List.replicate arr.length Op.pop).foldl step m).ran = m.ran ∧
+    ((List.replicate arr.length Op.pop).foldl step m).e.queue = m.e.queue := by
+  induction arr generalizing m with
+  | nil => exact absurd rfl hne
+  | cons x rest ih =>
+    obtain ⟨st, li⟩ := x
+    cases rest with
+    | nil =>
+      simp [step, mbNext, hl]
+    | cons y rest' =>
+      have hstep : (step m .pop).e.locks = some ((y :: rest').length, y :: rest') := by
+        simp [step, mbNext, hl]
+      have hran : (step m .pop).ran = m.ran := pop_locked m (by simp [hl])
+      have hq : (step m .pop).e.queue = m.e.queue := by simp [step, mbNext, hl]
+      obtain ⟨a, b, c⟩ := ih (step m .pop) (by simp) hstep
+      rw [List.length_cons, List.replicate_succ, List.foldl_cons]
+      exact ⟨a, by rw [b, hran], by rw [c, hq]⟩
+
+end Resgate.Gw.Mailbox
